@@ -171,6 +171,26 @@ CHECKS = {
         note="addresses are proved, the identification of the object at an address with the member/sub-object is the C++ object "
              "model and is observed (values compared word by word), not proved; zero-based views only (C19 for index bases), raw "
              "pointers and transform_ptr only (C11 for others); no 64-bit overflow; g++ 12/libstdc++, x86-64 little endian"),
+    "C11": dict(
+        text="Theorems C11_pointer_parametric(+_steps), C11_storage_parametric, C11_compare_parametric (Coq, for every pointer type "
+             "satisfying the torsor laws padd/pdiff/peq, every root, extents, rank, index base and every program of view "
+             "operations, index probes and iterator walks on begin()/end() and elements()): the model's address computations use "
+             "only pointer + integer, pointer - pointer and comparison, so the pointer-typed observation is map (padd root) of the "
+             "integer one with identical integer observables, and the element loops and relational operators behave the same on "
+             "pointer-indexed storage; C11_deref_in_bounds, C11_loops_touch_only_derefs, C11_compare_reads_only_leaves, "
+             "C11_loops_in_bounds: every dereference by indexing, iterators in [begin,end), elements(), the loops and comparison "
+             "lies inside [0,N) of the root (end iterators may hold out-of-range addresses but are never dereferenced). Replay: the "
+             "view/iterator/assignment/comparison program families and 28 owning-array probes run on T*, an offset-style fancy "
+             "pointer over an interleaved arena (no conversion to or from T*) and a bounds-checking provenance pointer; each output "
+             "must equal the model's observation file, the checked pointer's violation log must be empty, no to_address/"
+             "pointer_to call may occur.",
+        design_ref="5/C11", technique="Coq proof (step simulation over an abstract torsor, induction over programs and traces; bounds "
+                                      "from C01/C02; non-interference of the element loops) + differential replay of four program "
+                                      "families and fixed probes on three pointer types",
+        note="partial in the sense of DESIGN 8: the model part is proved, conformance of the library's templates to the pointer "
+             "concept is established by compiling and replaying on three pointer types, not for all types; pointer laws are "
+             "premises (fancy_ptr/checked_ptr satisfy them by construction); one open known finding "
+             "(reinterpret_array_cast<T2>(count) puns the pointer object); Coq 8.16.1 kernel, Print Assumptions in the evidence"),
 }
 
 NOT_YET = {
